@@ -129,8 +129,8 @@ PROPS['C14'] = {'assumptions': ['single writer goroutine (StoreLogs/DeleteRange 
              'release are observed (runtime.Stack, in-memory VFS accounting), not proved']}
 
 PROPS['C06'] = {'assumptions': ['single writer; base-index resets are run on the implementation only (not in the model)',
-                 'use-after-close freedom (no read through a closed or deleted file) is proved; linearizability is not proved: every read of every '
-                 'forced and free-running history is checked by the Go history checker'],
+                 'linearizability of every read and use-after-close freedom are proved for the model (all schedules); the Go history checker judges every '
+                 'read of every forced and free-running history of the implementation'],
  'rule': 'writer programs (append, rotation, head truncation with finalisation, tail truncation + re-append of other content, whole-log deletion) x reads x '
          'reader window x writer progress; two readers on one old state; random programs/schedules; 2 stress runs (8 readers); distinct = distinct input lines',
  'streams': [{'n': (2200, 40000), 'name': 'sched06', 'timeout': 3000, 'vm': (20, 200), 'vm_maxlen': 400}],
